@@ -216,7 +216,8 @@ def readback(msg, t):
             else:
                 out.append({'p': readback(x, mt) if is_composite(mt) else _from_py_scalar(mt, x)})
         elif mt['k'] == 'byte':
-            out.append({'b': bytes(getattr(msg, n)).hex()})
+            raw = getattr(msg, n)
+            out.append({'b': (raw if isinstance(raw, bytes) else raw.encode('latin-1')).hex()})   # a never assigned field is the str ''
         elif is_composite(mt):
             out.append([readback(e, mt) for e in getattr(msg, n)])
         else:
